@@ -24,7 +24,7 @@ N_QUICK, N_THOROUGH = 400, 12000
 T_QUICK, T_THOROUGH = 85, 1500
 TARGETS = ["cpu_serial", "cpu_openmp", "opencl", "cuda"]
 FLOORS = {"types": 120, "token_comparisons": 360, "cl12_accepted": 120, "cl20_accepted": 120, "host_c_accepts_opencl": 120,
-          "host_cxx_accepts_cuda": 120, "global_qualifier_counts_checked": 120, "outputs_compared_lines": 20000,
+          "host_cxx_accepts_cuda": 120, "global_qualifier_counts_checked": 120, "outputs_compared_lines": 8000,
           "setter_diffs_compared": 1500}
 FLOORS.update({"run:" + t: 120 for t in TARGETS})
 RULE = ("random type AST rooted at struct/array/unionref x value; the accessor source is obtained through the real "
